@@ -1251,12 +1251,7 @@ func CrashSummary(log string) (summary string, hasFrame, ok bool) {
 		}
 		if first == "" && (strings.HasPrefix(l, "fatal error:") || strings.HasPrefix(l, "panic:") || strings.HasPrefix(l, "runtime: out of memory") || strings.Contains(l, "SIGQUIT")) {
 			first = l
-			for _, m := range lines[i:] {
-				if mm := csFrame.FindStringSubmatch(m); mm != nil {
-					frame = mm[1]
-					break
-				}
-			}
+			frame = crashFrame(lines[i:], csFrame)
 		}
 	}
 	if first == "" {
@@ -1290,4 +1285,60 @@ func TrimProgress() {
 	if p := os.Getenv("VERIF_PROGRESS"); p != "" {
 		os.Truncate(p, 0)
 	}
+}
+
+// crashFrame names the code under test that was executing when the process died: the innermost github.com/jcmturner frame of
+// the goroutine that was running (for a fatal error thrown on the system stack, e.g. an allocation refused inside the garbage
+// collector, there may be none: other goroutines that merely exist - a sleeping janitor - say nothing about the cause).
+func crashFrame(lines []string, frameRe *regexp.Regexp) string {
+	type block struct {
+		header string
+		frames []string
+	}
+	var blocks []block
+	cur := -1
+	for _, l := range lines {
+		if strings.HasPrefix(l, "goroutine ") && strings.HasSuffix(strings.TrimSpace(l), ":") {
+			blocks = append(blocks, block{header: l})
+			cur = len(blocks) - 1
+			continue
+		}
+		if strings.HasPrefix(l, "runtime stack:") {
+			cur = -1
+			continue
+		}
+		if cur >= 0 && l != "" && !strings.HasPrefix(l, "\t") {
+			blocks[cur].frames = append(blocks[cur].frames, l)
+		}
+	}
+	pick := func(b block) string {
+		for _, f := range b.frames {
+			if mm := frameRe.FindStringSubmatch(f); mm != nil {
+				return mm[1]
+			}
+		}
+		return ""
+	}
+	for _, b := range blocks {
+		if strings.Contains(b.header, "[running") {
+			return pick(b)
+		}
+	}
+	// no goroutine was running on the thread that failed: a goroutine in the middle of an allocation is the next best witness
+	for _, b := range blocks {
+		for _, f := range b.frames {
+			if strings.HasPrefix(f, "runtime.mallocgc") || strings.HasPrefix(f, "runtime.makeslice") || strings.HasPrefix(f, "runtime.growslice") || strings.HasPrefix(f, "runtime.newarray") {
+				return pick(b)
+			}
+		}
+	}
+	if len(blocks) == 0 {
+		// no goroutine dump (panic output of another shape): first frame after the fatal line, as before
+		for _, l := range lines {
+			if mm := frameRe.FindStringSubmatch(l); mm != nil {
+				return mm[1]
+			}
+		}
+	}
+	return ""
 }
